@@ -281,8 +281,53 @@ def one_case(res, method, db, args, version="v2c", level="noauth"):
     return case, got, req
 
 
+def lenient_walks(ctx, res):
+    """`errors="warn"` through the wrapper: a device that gets stuck during a walk (a GETNEXT answered
+    with a non-successor) ends the lenient walk normally with what was received so far — through the
+    wrapper exactly as through the raw client; strict walks raise through both (seeded C15-53: the
+    wrapper did not pass `errors` on)."""
+    from puresnmp import Client, PyWrapper
+
+    rng = ctx.rng
+    for i in range(ctx.budget(24, 200)):
+        root = [1, 3, 6, 1, 2, 1, rng.randint(2, 20)]
+        good = sorted({tuple(root + [1, rng.randint(1, 40)]) for _ in range(rng.randint(1, 5))})
+        stuck = rng.choice(["same", "back", "first"])
+        table = {}
+        cur = tuple(root)
+        for o in good:
+            table[cur] = o
+            cur = o
+        table[cur] = {"same": cur, "back": good[0], "first": tuple(root[:-1])}[stuck]   # not a successor
+        out = []
+        for lenient in (True, False):
+            row = []
+            for layer in ("raw", "py"):
+                agent = RA.Agent(table=dict(table), budget=len(good) + 6)
+                client = W.make_client(agent, "v2c", "noauth")
+                try:
+                    if layer == "raw":
+                        got = W.run(collect(client.walk(RA.OID(root), errors="warn" if lenient else "strict")))
+                        r = ["ok", [[list(vb.oid.nodes), RA.canon_value(vb.value)] for vb in got]]
+                    else:
+                        got = W.run(collect(PyWrapper(client).walk(dot(root), errors="warn" if lenient else "strict")))
+                        r = ["ok", [[[int(x) for x in vb.oid.split(".")], None] for vb in got]]
+                except Exception as exc:  # noqa: BLE001
+                    r = ["error", RA.canon_exc(exc)]
+                row.append(r)
+            out.append(row)
+            res.evaluations += 1
+            res.count(f"lenient-walk:{'warn' if lenient else 'strict'}:{stuck}")
+            raw, py = row
+            same = raw[0] == py[0] and (raw[0] == "error" and raw[1] == py[1] or raw[0] == "ok" and [o for o, _ in raw[1]] == [o for o, _ in py[1]])
+            if not same:
+                res.violate("lenient-walk", {"table": [[list(k), list(v)] for k, v in table.items()], "root": root, "errors": "warn" if lenient else "strict"},
+                            raw, py, "a walk through the pythonic wrapper does not end like the raw client's walk of the same exchange", {"kind": "py", "what": "walk-errors-mode"})
+
+
 def run(ctx):
     res = Result()
+    lenient_walks(ctx, res)
     cases, reqs = [], []
     protos = [("v2c", "noauth")] * 3 + [("v1", "noauth"), ("v3", "authpriv")]
     for i in range(ctx.budget(1100, 30000)):
